@@ -67,6 +67,23 @@ type Ctx struct {
 	injectedCh *[]any // destination channels of the try-sends that were made to find the queue full
 }
 
+// PauseDrops suspends queue-full injection (harness bootstrap traffic is not part of the
+// scenario); RestoreDrops puts back what PauseDrops returned.
+func (c *Ctx) PauseDrops() bool {
+	if c.dropsArmed == nil {
+		return false
+	}
+	was := *c.dropsArmed
+	*c.dropsArmed = false
+	return was
+}
+
+func (c *Ctx) RestoreDrops(was bool) {
+	if c.dropsArmed != nil {
+		*c.dropsArmed = was
+	}
+}
+
 // InjectedTo reports how many sends to s were made to find its queue full by
 // the queue-full injection (not all of them end as a drop the router logs: a
 // RESULT is retried).
